@@ -35,9 +35,12 @@ def random_domains(rng, gd):
     nodes = sorted(gd["nodes"])
     k = rng.choice([1, 1, 2, 2, 3])
     doms = []
+    star_at = rng.randrange(k) if rng.random() < 0.3 else None  # at most one entry tagged pi*, anywhere in the list
     for i in range(k):
-        if i == k - 1 and rng.random() < 0.25:
-            doms.append({"population": "pi*", "transport": [], "policy": []})
+        if i == star_at:
+            # the target population's own data: observational, or an experiment run there (non-empty policy set)
+            zs = rng.sample(nodes, min(len(nodes), rng.choice([1, 1, 2]))) if rng.random() < 0.4 else []
+            doms.append({"population": "pi*", "transport": [], "policy": sorted(zs)})
             continue
         t = rng.sample(nodes, rng.choice([0, 1, 1, 2]) if len(nodes) >= 2 else rng.choice([0, 1]))
         # policy sets of size 0..3 (several policy variables in one domain: each one alone can spoil a district)
@@ -149,6 +152,12 @@ def run_shard(ctx):
                 # an outcome that repeats a condition (same variable, same value): P(y, x | x) = P(y | x)
                 out = out + [list(rng.choice(cond))]
                 cls = cls + "+outcome-repeats-condition"
+            elif out and rng.random() < 0.18:
+                # one outcome variable listed twice with different values: an impossible event, the answer must be zero
+                c = rng.choice(out)
+                if c[2] is not None:
+                    out = out + [[c[0], [list(w) for w in c[1]], not c[2]]]
+                    cls = cls + "+outcome-twice-with-two-values"
         else:
             out, cls = gev.random_event(rng, gd)
             cond = []
